@@ -621,8 +621,105 @@ Contract(
     ],
     modifies=[Ghost("call_log"), Ghost("env_calls"), Ghost("env_kind"), Ghost("env_val"), Ghost("bind_err"),
               Ghost("pool_accepted"), Ghost("uuid_ctr"), Ghost("xlate_log"), Ghost("x_kind"), Ghost("x_val"), Ghost("last_dumped"), Ghost("imports"),
-              Ghost("constructs"), Ghost("checked_name")] +
+              Ghost("constructs"), Ghost("checked_name"), Ghost("bean_attrs")] +
              [Fresh(f) for f in ("faultCode", "faultString", "rpcid", "config", "data", "id", "version", "args") + _CFG_FIELDS] +
              [Fresh(f) for f in ("_logger", "_done_event", "_FutureResult__callback", "_FutureResult__extra")],
     props=("C02", "C03", "C05", "C08", "C13"),
+)
+
+
+# --- do_POST (C17, C12, C02) ----------------------------------------------------------------------------------------------------
+SERVER = "jsonrpclib.SimpleJSONRPCServer.SimpleJSONRPCServer"
+
+
+def _srv(c, heap="old"):
+    return (c.old if heap == "old" else c.new)(c.a.self, "server")
+
+
+def _post_domain(c):
+    srv = _srv(c)
+    h = c.old(c.a.self, "headers")
+    body, pos = c.gold("in_body"), c.gold("in_pos")
+
+    class _A(object):
+        pass
+    c2 = __import__("copy").copy(c)
+    a = _A()
+    a.self = srv
+    c2.a = a
+    return z3.And(V.is_obj(srv), Val.ref(srv) >= 0, Val.ref(srv) < ALLOC0, Val.ref(srv) != Val.ref(c.a.self),
+                  C.subclass(C.cls_of(Val.ref(srv)), S.SimpleJSONRPCServer), disp_inv(c2, srv),
+                  V.is_dict(h), jsonv(h), pos >= 0, pos <= z3.Length(body),
+                  V.is_list(c.gold("out")), Val.llen(c.gold("out")) >= 0,
+                  implies(has_attr_field(c, c.a.self, "_dispatch"), V.is_fun(c.old(c.a.self, "_dispatch"))),
+                  V.is_str(c.old(c.a.self, "path")),
+                  # header values are strings; a Content-Length that parses as an integer is not negative
+                  implies(has(h, "content-length"), V.is_str(get(h, "content-length"))),
+                  implies(z3.And(has(h, "content-length"), V.is_str(get(h, "content-length")),
+                                 V.int_str_ok(Val.s(get(h, "content-length")))),
+                          V.int_of_str(Val.s(get(h, "content-length"))) >= 0))
+
+
+def has_attr_field(c, obj, name):
+    return z3.Select(c.old_arr("?has:" + name), Val.ref(obj))
+
+
+def _o(c, k):
+    return z3.Select(Val.lat(c.gnew("out")), Val.llen(c.gold("out")) + k)
+
+
+def _consumed(L):
+    return L.ghost("in_pos") - L.ghost0("in_pos")
+
+
+def _read_inv(L):
+    chunks = L.v("chunks")
+    rem = L.v("size_remaining")
+    total = L.v0("size_remaining")
+    return z3.And(V.is_list(chunks), Val.llen(chunks) >= 0, all_bytes(chunks), V.is_int(rem), V.is_int(total),
+                  _consumed(L) >= 0, L.ghost("in_pos") <= z3.Length(L.ghost("in_body")),
+                  L.ghost("in_body") == L.ghost0("in_body"),
+                  bjoin_of(chunks) == z3.SubString(L.ghost("in_body"), L.ghost0("in_pos"), _consumed(L)),
+                  Val.i(rem) == Val.i(total) - _consumed(L), Val.i(rem) >= 0,
+                  L.ghost("out") == L.ghost0("out"))
+
+
+def _whole_body_assert(pc, L):
+    """at the call of the dispatcher: the text it receives is the UTF-8 decoding of all the bytes read, however they
+    were split into reads"""
+    body, p0 = L.ghost("in_body"), z3.Const("G0!in_pos", z3.IntSort())
+    return pc.a.data == V.VStr(V.dec_utf8(z3.SubString(body, p0, L.ghost("in_pos") - p0)))
+
+
+Contract(
+    HANDLER + ".do_POST",
+    requires=[("handler", _post_domain)],
+    ensures=[
+        ("raises_only_if_the_backend_rejects_the_error_reply", lambda c: implies(c.raised, c.raises(TypeError)), ("C02", "C12")),
+        ("reply_declares_type_and_byte_length", lambda c: implies(
+            z3.And(Val.llen(c.gnew("out")) >= Val.llen(c.gold("out")) + 4,
+                   z3.Select(Val.tat(_o(c, 0)), 0) == V.S("status"),
+                   z3.Or(z3.Select(Val.tat(_o(c, 0)), 1) == V.I(200), z3.Select(Val.tat(_o(c, 0)), 1) == V.I(500))),
+            z3.And(_o(c, 1) == tup(V.S("header"), V.S("Content-type"), c.old(c.old(_srv(c), "json_config"), "content_type")),
+                   z3.Select(Val.tat(_o(c, 2)), 0) == V.S("header"), z3.Select(Val.tat(_o(c, 2)), 1) == V.S("Content-length"),
+                   _o(c, 3) == tup(V.S("end_headers")),
+                   z3.Or(z3.And(Val.llen(c.gnew("out")) == Val.llen(c.gold("out")) + 4,
+                                z3.Select(Val.tat(_o(c, 2)), 2) == V.S("0")),
+                         z3.And(Val.llen(c.gnew("out")) == Val.llen(c.gold("out")) + 5,
+                                z3.Select(Val.tat(_o(c, 4)), 0) == V.S("write"),
+                                V.is_bytes(z3.Select(Val.tat(_o(c, 4)), 1)),
+                                z3.Select(Val.tat(_o(c, 2)), 2) ==
+                                V.VStr(V.int_to_str(z3.Length(Val.y(z3.Select(Val.tat(_o(c, 4)), 1))))))))), ("C17",)),
+        ("writes_one_response", lambda c: z3.And(V.is_list(c.gnew("out")), Val.llen(c.gnew("out")) >= Val.llen(c.gold("out")) + 1),
+         ("C12",)),
+        ("handler_only_state", lambda c: config_unchanged(c, c.old(_srv(c), "json_config")), ("C13", "C12")),
+    ],
+    asserts=[("dispatcher_gets_the_decoding_of_the_whole_body", _MD, _whole_body_assert, ("C17",))],
+    loops={0: LoopSpec(_read_inv, "read-loop")},
+    modifies=[Ghost(g) for g in ("out", "in_pos", "call_log", "env_calls", "env_kind", "env_val", "bind_err", "pool_accepted",
+                                 "uuid_ctr", "xlate_log", "x_kind", "x_val", "last_dumped", "imports", "constructs",
+                                 "checked_name", "bean_attrs")] +
+             [Fresh(f) for f in ("faultCode", "faultString", "rpcid", "config", "data", "id", "version", "args") + _CFG_FIELDS] +
+             [Fresh(f) for f in ("_logger", "_done_event", "_FutureResult__callback", "_FutureResult__extra")],
+    props=("C17", "C12", "C02"),
 )
